@@ -1,14 +1,14 @@
 INIT GenInit
-NEXT GenNextSim
+NEXT GenNext
 CONSTANTS
   Program <- GenProgram
-  Role = "client"
+  Role = "server"
   WBuf = 256
-  Shapes <- S_nwMp_wmS
+  Shapes <- S_nwFp_wmS
   Ctl <- C_ping
-  Closer = TRUE
+  Closer = FALSE
   Rd <- R_pongD_pong
-  Fault <- F_none
+  Fault <- F_R1_t
   ControlTakesLock = TRUE
   FlushAtomic = TRUE
   LatchChecked = TRUE
@@ -18,6 +18,6 @@ CONSTANTS
   TimeoutFaultLatches = TRUE
   Fifo = TRUE
   OnlyBad = FALSE
-  Family = "simrclient"
+  Family = "flt_rd"
 INVARIANT Emit
 CHECK_DEADLOCK FALSE
